@@ -140,6 +140,7 @@ theorem C11_register (v : RpId.Verifier) (cfg : Cfg) (u : UvCfg) (s : Store) (dr
               rw [hst]
               cases discOf s.kind <;> rfl
             rw [hd _ hk2]
+            unfold zipContents
             cases hx : req.ext with
             | none => rfl
             | some e =>
